@@ -422,13 +422,11 @@ fn resolve_glyph(g: &GlyphRaw, num_glyphs: usize) -> Glyph {
             Glyph::Simple(s)
         }
         GlyphRaw::Composite { comps, instr_sel, bbox } => {
-            let components = comps
+            let mut components: Vec<Component> = comps
                 .iter()
                 .map(|c| {
-                    let mut misc = c.misc & gg::FREE_COMPONENT_FLAGS;
-                    if misc & gg::SCALED_COMPONENT_OFFSET != 0 && misc & gg::UNSCALED_COMPONENT_OFFSET != 0 {
-                        misc &= !gg::UNSCALED_COMPONENT_OFFSET;
-                    }
+                    // WE_HAVE_INSTRUCTIONS is placed below, per pattern
+                    let misc = c.misc & gg::FREE_COMPONENT_FLAGS & !gg::WE_HAVE_INSTRUCTIONS;
                     let xy = misc & gg::ARGS_ARE_XY_VALUES != 0;
                     let conv = |a: u16| -> i32 {
                         match (c.words, xy) {
@@ -453,7 +451,39 @@ fn resolve_glyph(g: &GlyphRaw, num_glyphs: usize) -> Glyph {
                     }
                 })
                 .collect();
-            let instructions = if *instr_sel < 65000 && instr_sel % 3 == 0 { None } else { Some(instr_bytes(*instr_sel)) };
+            // which components carry WE_HAVE_INSTRUCTIONS: none / last only / first only /
+            // one in the middle / all / all but the last
+            let n = components.len();
+            let sel = *instr_sel;
+            let instructions = if sel < 65000 && sel % 4 == 0 {
+                None
+            } else {
+                let on: Vec<usize> = match (sel >> 2) % 5 {
+                    0 => vec![n - 1],
+                    1 => vec![0],
+                    2 => vec![n / 2],
+                    3 => (0..n).collect(),
+                    _ => {
+                        if n > 1 {
+                            (0..n - 1).collect()
+                        } else {
+                            vec![0]
+                        }
+                    }
+                };
+                for i in on {
+                    components[i].misc_flags |= gg::WE_HAVE_INSTRUCTIONS;
+                }
+                // mostly non-empty; sometimes the flag with zero instructions
+                let len = if sel >= 65000 {
+                    INSTR_LENS[(sel - 65000) as usize % INSTR_LENS.len()]
+                } else if (sel >> 5) % 8 == 0 {
+                    0
+                } else {
+                    1 + ((sel >> 8) % 6) as usize
+                };
+                Some((0..len).map(|i| (sel as usize).wrapping_mul(29).wrapping_add(i * 11) as u8).collect())
+            };
             Glyph::Composite(Composite { components, instructions, bbox: *bbox })
         }
     }
@@ -476,7 +506,7 @@ pub fn expected_pglyph(g: &Glyph) -> PGlyph {
                     .iter()
                     .enumerate()
                     .map(|(i, k)| PComponent {
-                        flags: k.flags(i != last, i == last && c.instructions.is_some()),
+                        flags: k.flags(i != last),
                         glyph: k.glyph,
                         arg1: k.arg1,
                         arg2: k.arg2,
@@ -1067,6 +1097,10 @@ fn self_check(b: &Built) {
     }
 }
 
+fn rec_has(rec: &Rec, label: &str) -> bool {
+    rec.classes.iter().any(|c| c == label)
+}
+
 pub fn check_case(case: &Case, rec: &mut Rec) -> CaseResult {
     let b = build(case);
     self_check(&b);
@@ -1086,6 +1120,37 @@ pub fn check_case(case: &Case, rec: &mut Rec) -> CaseResult {
     rec.class_if(st.bbox_explicit_diff > 0, "bbox:explicit-different");
     rec.class_if(st.bbox_explicit_equal > 0, "bbox:explicit-equal");
     rec.class_if(st.composites > 0 && any_xf, "glyph:composite-transformed");
+    for (gi, g) in b.groups.iter().enumerate() {
+        if !p.group_xf[gi] {
+            continue;
+        }
+        for gl in &g.glyphs {
+            if let Glyph::Composite(c) = gl {
+                let n = c.components.len();
+                let on: Vec<bool> = c.components.iter().map(|k| k.misc_flags & gg::WE_HAVE_INSTRUCTIONS != 0).collect();
+                let cnt = on.iter().filter(|x| **x).count();
+                let label = if cnt == 0 {
+                    "composite-instr:none"
+                } else if cnt == n && n > 1 {
+                    "composite-instr:all"
+                } else if on[n - 1] {
+                    "composite-instr:last(-only)"
+                } else if cnt == 1 && on[0] {
+                    "composite-instr:first-only(not-last)"
+                } else if cnt == 1 {
+                    "composite-instr:middle-only"
+                } else {
+                    "composite-instr:several-not-last"
+                };
+                if !rec_has(rec, label) {
+                    rec.class(label);
+                }
+                if cnt > 0 && c.instructions.as_ref().map(|i| i.is_empty()).unwrap_or(false) && !rec_has(rec, "composite-instr:flag-with-zero-length") {
+                    rec.class("composite-instr:flag-with-zero-length");
+                }
+            }
+        }
+    }
     rec.class_if(st.empty > 0 && any_xf, "glyph:empty-transformed");
     for (k, name) in ["u255:1-byte", "u255:code255", "u255:code254", "u255:code253"].iter().enumerate() {
         rec.class_if(st.u255_forms[k] > 0, name);
@@ -1417,7 +1482,7 @@ fn check_glyph_count(item: u64, rec: &mut Rec) -> CaseResult {
     };
     let comp = |g: u16, bbox| {
         Glyph::Composite(Composite {
-            components: vec![Component { misc_flags: gg::ARGS_ARE_XY_VALUES, words: true, glyph: g, arg1: -300, arg2: 40, xform: Xform::Scale(0x2000) }],
+            components: vec![Component { misc_flags: gg::ARGS_ARE_XY_VALUES | gg::WE_HAVE_INSTRUCTIONS, words: true, glyph: g, arg1: -300, arg2: 40, xform: Xform::Scale(0x2000) }],
             instructions: Some(vec![9, 8]),
             bbox,
         })
@@ -1544,7 +1609,7 @@ fn glyph_from_parsed(p: &PGlyph) -> Option<Glyph> {
                 .collect();
             let g = Glyph::Composite(Composite { components: comps, instructions: instructions.clone(), bbox: *bbox });
             if expected_pglyph(&g) != *p {
-                return None; // reserved flag bits, WE_HAVE_INSTRUCTIONS on an inner component, ...
+                return None; // reserved flag bits
             }
             g
         }
@@ -1766,7 +1831,7 @@ impl Property for C11 {
     fn assumptions(&self) -> Vec<String> {
         vec![
             "my WOFF2 encoder follows the W3C Recommendation (it was written from the specification text, not from allsorts); its triplet table is cross-checked only against allsorts' behaviour and the real fixtures".into(),
-            "coordinate deltas stay within what a glyf table can hold (|delta| <= 32767, or -32768); contours have >= 1 point; WE_HAVE_INSTRUCTIONS only on the last component; no reserved composite flag bits; no OVERLAP_SIMPLE (overlapSimpleBitmap is not generated)".into(),
+            "coordinate deltas stay within what a glyf table can hold (|delta| <= 32767, or -32768); contours have >= 1 point; WE_HAVE_INSTRUCTIONS on any subset of the components (instructions present iff any has it); reserved composite flag bits (4, 13-15, 'set to 0') are not generated; no OVERLAP_SIMPLE (overlapSimpleBitmap is not generated)".into(),
             "loca directly follows its glyf in the table directory; hmtx transform bits are only set when the elided side bearings equal the stored xMin (0 for empty glyphs)".into(),
             "the brotli decompressor (third-party crate) is trusted; only stored meta-blocks are produced".into(),
             "head is compared except checkSumAdjustment and indexToLocFormat (the latter must be 0/1 and agree with the delivered loca)".into(),
